@@ -10,6 +10,8 @@
 #[path = "../am_common.rs"]
 #[macro_use]
 mod am_common;
+#[path = "../am_blockmodel.rs"]
+mod am_blockmodel;
 use am_common::*;
 use bio::alignment::{Alignment, AlignmentOperation};
 use bio_verif_harness::{bytes, Log, Rng};
@@ -773,7 +775,7 @@ pub fn drive(log: &mut Log) {
     // (d) the edit budget is used up exactly at a block seam (am_common::seam_case): a hit of
     //     distance exactly k with all k edits in the upper blocks, single-word and block-based
     //     object side by side, eager and lazy
-    let reps = log.opts.n(6, 12);
+    let reps = log.opts.n(2, 12);
     for &w in &[8usize, 16] {
         for blocks in 2..=3usize {
             for b in 1..blocks {
@@ -810,6 +812,32 @@ pub fn drive(log: &mut Log) {
             }
         }
     }
+
+    // (e) guided search for the rare transitions of the band-limited block machine
+    //     (am_blockmodel::guided_search, as in the `myers` driver but from another random
+    //     stream): each selected (pattern, text, k) is searched eagerly and lazily by a
+    //     single-word and a block-based object side by side
+    let nsh = log.opts.nshards.max(1);
+    let quota = (log.opts.n(16, 64) as usize + nsh as usize - 1) / nsh as usize;
+    let max_patterns = log.opts.n(600, 2400) as usize;
+    let (found, used) = am_blockmodel::guided_search(&|c| Rng::new(seed, 45, c), case + 1, nsh, log.opts.shard, quota, max_patterns);
+    case += used;
+    for (c, wt) in found {
+        for r in &wt.why {
+            log.oblige(r);
+        }
+        let mut rng = Rng::new(seed, 46, c);
+        let texts = vec![wt.t.clone()];
+        let searches = vec![
+            Search { ti: 1, k: wt.k, lazy: false, max_hits: 99, style: rng.below(4), light: false },
+            Search { ti: 1, k: wt.k, lazy: true, max_hits: 99, style: rng.below(4), light: false },
+            Search { ti: 1, k: wt.k + 1, lazy: rng.coin(), max_hits: 99, style: rng.below(4), light: true },
+        ];
+        let ws = if wt.p.len() <= 32 { 32 } else { 64 };
+        let objs = [Obj { long_impl: false, w: ws }, Obj { long_impl: true, w: wt.w }];
+        run_one(log, "gs", seed, c, &Case { p: &wt.p, tb: &none, texts: &texts, objs: &objs, searches: &searches });
+    }
+    let _ = case;
 }
 
 fn main() {
